@@ -93,7 +93,8 @@ def run_case(case: dict[str, Any]) -> dict[str, Any]:
                 if l > 0:
                     await asyncio.sleep(l * period)
 
-            ok = r.add_timeseries(f"s{i}", rx, sink)
+            # (the name is a free-form label: several series may carry the same one)
+            ok = r.add_timeseries("series" if case.get("same_names") else f"s{i}", rx, sink)
             rec["added"][i] = {"at": _now(), "ok": ok, "window_end_at_add": r._window_end}  # noqa: SLF001
 
         rec["first_window_end"] = r._window_end  # noqa: SLF001  (hooked state, used only to number ticks)
